@@ -7,6 +7,7 @@ import (
 	"crypto/md5"
 	"encoding/binary"
 	"fmt"
+	"sync"
 	"sync/atomic"
 
 	"github.com/grailbio/bigslice/exec"
@@ -38,6 +39,7 @@ type frameStats struct {
 	compactGrown   int64     // ... of a table that had grown
 	maxLen         int64
 	maxCap         int64
+	sample         sync.Once
 }
 
 type frameSpace struct {
@@ -277,6 +279,12 @@ func (s *frameSpace) run(h hist) (id stateID, ok bool) {
 		}
 		if midBatch {
 			atomic.AddInt64(&s.st.midBatchResize, 1)
+		}
+		if disp && wrap && lastNewCap >= 16 {
+			s.st.sample.Do(func() {
+				s.r.Sample(map[string]interface{}{"object": "combiningFrame", "space": s.label(), "history": h.names(s.al),
+					"table_after_last_step": slotsString(kd, d), "model": m.String(kd), "note": "last step grew the table; the rehashed table holds displaced (wrapped) keys"})
+			})
 		}
 	}
 	atomicMax(&s.st.maxLen, int64(len(d.okeys)))
